@@ -60,7 +60,12 @@ fn get_set_cached<T: Clone>(
     key: &std::path::Path,
     value_func: impl FnOnce() -> T,
 ) -> T {
-    let mut lock = cache.lock().expect("cache is poisoned");
+    // `value_func` may panic (missing or unparsable file) while the lock is held. The map is
+    // untouched in that case, so a poisoned lock still guards consistent data: do not let one
+    // bad path break every later call in the same process.
+    let mut lock = cache
+        .lock()
+        .unwrap_or_else(std::sync::PoisonError::into_inner);
     #[cfg(graphql_client_verif)]
     let _verif_event = verif::CacheEventGuard::begin::<T>(key, lock.contains_key(key));
     lock.entry(key.into()).or_insert_with(value_func).clone()
